@@ -128,6 +128,11 @@ func c09(r *report.Run) {
 			probes = append(probes, pr)
 		}
 	}
+	// a small budget for the whole check: fresh and reused VMs see the same one, and allocations
+	// that survive from one run to the next on a reused VM show within a few runs
+	savedBudget := vm.MemoryBudget
+	vm.MemoryBudget = 60
+	defer func() { vm.MemoryBudget = savedBudget }()
 	corpus := c09Corpus(r.Tier)
 	srcs := make([]string, 0, len(corpus)+len(c09Extra))
 	exprs := make([]*gen.Expr, 0, len(corpus)+len(c09Extra))
@@ -237,7 +242,9 @@ func c09(r *report.Run) {
 			// (5b) one VM value reused across the valuations must agree with fresh VMs
 			if len(vals) > 1 {
 				reused := &vm.VM{}
-				for _, v := range vals {
+				rounds := append(append(append([]henv.Val{}, vals...), vals...), vals...)
+				rounds = append(rounds, rounds...)
+				for _, v := range rounds {
 					a, ea := func() (out interface{}, err error) {
 						defer func() {
 							if r := recover(); r != nil {
